@@ -100,6 +100,13 @@ pub fn one_run(cfg: &gen_::Cfg, cfgid: &str, proc_name: &str, wd: &gen_::Workdir
             times.push(t);
         }
         let header_times = times.len();
+        // the gzip member header of a gzip payload carries a modification time of its own
+        if let Some(lay) = rawhdr::layout(&bytes) {
+            let p = &bytes[lay.payload_at..];
+            if p.len() >= 8 && p[0] == 0x1f && p[1] == 0x8b {
+                times.push(u32::from_le_bytes([p[4], p[5], p[6], p[7]]));
+            }
+        }
         match cpio_mtimes(&bytes) {
             Some(v) => times.extend(v),
             None => times.push(u32::MAX), // an archive the scanner cannot read is reported as a late time
@@ -132,10 +139,17 @@ pub fn run(args: &Args) {
     let n = args.num("n", 12);
     let exe = std::env::current_exe().unwrap();
     let wd = gen_::Workdir::new("c11");
+    // the first run of every configuration, then a pause: the later runs of a configuration start in another
+    // second of the wall clock than its first one
+    for idx in 0..n {
+        let cfg = make_cfg(args.seed(), idx);
+        t.emit(one_run(&cfg, &format!("cfg{idx}"), "inproc0", &wd, 0));
+    }
+    std::thread::sleep(std::time::Duration::from_millis(1100));
     for idx in 0..n {
         let cfg = make_cfg(args.seed(), idx);
         let id = format!("cfg{idx}");
-        for k in 0..3 {
+        for k in 1..3 {
             t.emit(one_run(&cfg, &id, &format!("inproc{k}"), &wd, k));
         }
         let tzs = ["UTC", "Asia/Tokyo", "America/Los_Angeles", "Europe/Berlin"];
